@@ -47,7 +47,7 @@ def prog_str(progs):
 
 
 def scenario(C, E, progs, choose, transport='plain', capw=300, capr=50, fine=False, listener=None, fail_prefix=None,
-             shutdown_fails=False, stall_w=0):
+             shutdown_fails=False, stall_w=0, fail_user_body=None):
     """run one scenario to completion; returns dict(log, ran, wire bytes, …)"""
     from minecraft.networking.packets import serverbound
     rng_dummy = None
@@ -96,6 +96,7 @@ def scenario(C, E, progs, choose, transport='plain', capw=300, capr=50, fine=Fal
         isock.fail_prefix = fail_prefix
         isock.shutdown_fails = shutdown_fails
         isock.stall_w = stall_w
+        isock.fail_user_body = fail_user_body
         # the transport is set up by the library's own _connect() (queue creation included) against a
         # stand-in for the socket module whose socket() is the instrumented one
         import socket as real_socket
@@ -407,6 +408,31 @@ def run(ctx):
                 bad = 'packets %r were sent after the disconnect returned' % sorted({e[2] for e in later})
             elif not r['closed']:
                 bad = 'the socket is still open when the disconnect has returned and every thread is done'
+        if not bad and not sdf:
+            # the byte stream: whole frames of issued packets, then at most ONE incomplete frame at the very end (the write
+            # that failed) -- nothing may follow an incomplete frame
+            data = b''.join(b for _, _, _, b in r['wire'])
+            pos, nframes = 0, 0
+            while pos < len(data):
+                try:
+                    n_, q_ = rc.read_varint(data, pos)
+                except Exception:
+                    break
+                if q_ + n_ > len(data):
+                    break
+                body = data[q_:q_ + n_]
+                try:
+                    pid_, q2 = rc.read_varint(body, 0)
+                    msg, _ = rc.read_string(body, q2)
+                    okf = msg.startswith('m') and msg[1:].rstrip('x').isdigit() and msg == 'm%d' % int(msg[1:].rstrip('x')) + 'x' * (int(msg[1:].rstrip('x')) % 7)
+                except Exception:
+                    okf = False
+                if not okf:
+                    bad = 'after %d whole frames the byte stream continues with bytes that are not a frame of an issued packet (%s…): ' \
+                          'something was written behind an incomplete frame' % (nframes, data[pos:pos + 12].hex())
+                    break
+                nframes += 1
+                pos = q_ + n_
         if not bad and r['caller_errors']:
             bad = 'an API call raised to its caller: %r' % (r['caller_errors'][:2],)
         if not bad and r.get('stuck'):
@@ -417,6 +443,37 @@ def run(ctx):
         if r['errors'] and not failed:
             ctx.violation('%s: a thread raised: %r' % (label, r['errors'][:2]), {'programs': prog_str(progs), 'schedule': r['ran']},
                           key={'programs': prog_str(progs), 'schedule': r['ran'], 'kind': 'thread-error'})
+    # ---- "an immediate disconnect sends nothing further", also not in the NEXT session of the same object: a packet queued
+    # right before disconnect(immediate=True) never reaches any server -- neither the old one nor, after connect(), the new one
+    import simnet
+    from refserver import RefServer
+    for trial in range(ctx.scale(8, 40)):
+        nleft = rng.randint(1, 4)
+        cfg = {'version': 757, 'script': [('success',)]}
+        with simnet.Net(lambda s_: RefServer(s_, cfg)) as net:
+            conn = C.Connection('h', 1, username='u', allowed_versions={757}, handle_exception=lambda e, i: None)
+            conn.connect()
+            net.run_threads()
+            from minecraft.networking.packets import serverbound as sb_
+            for k in range(nleft):
+                conn.write_packet(sb_.play.ChatPacket(message='left-behind-%d' % k))
+            conn.disconnect(immediate=True)
+            net.run_threads()
+            if trial % 2:
+                conn.disconnect()                  # a second, graceful call on the closed object: nothing to flush to
+                net.run_threads()
+            conn.connect()
+            net.run_threads()
+            servers_ = list(cfg['servers'])
+        ctx.case(('immediate-then-reconnect', trial, nleft))
+        ctx.count('immediate-then-reconnect')
+        leaked = [(i_, f[0], f[1]) for i_, srv_ in enumerate(servers_) for f in srv_.frames if b'left-behind' in f[2]]
+        s2 = servers_[1] if len(servers_) > 1 else None
+        if leaked or s2 is None or s2.errors or s2.handshake is None or s2.handshake.get('next') != 2 or s2.login_name != 'u':
+            ctx.violation('%d packets queued, disconnect(immediate=True), connect() on the same object: packets of the old session reached '
+                          'server(s) %r; the new server read handshake %r, login name %r, parse errors %r'
+                          % (nleft, leaked[:3], s2 and s2.handshake, s2 and s2.login_name, s2 and s2.errors[:1]),
+                          {'queued': nleft}, key={'kind': 'immediate-then-reconnect'})
     # ---- back-pressure at the moment of a graceful disconnect: the peer has not drained its receive window, so the socket
     # is momentarily not writable (a blocking send simply waits); everything queued must still be sent before the close
     for i in range(ctx.scale(30, 300)):
@@ -434,6 +491,39 @@ def run(ctx):
         ctx.case(('back-pressure', prog_str(progs), tuple(r['ran'])), sample={'programs': prog_str(progs), 'kind': 'back-pressure'})
         ctx.count('back_pressure_walks')
         oracle(ctx, progs, r, ['plain', 'compressed', 'encrypted'][i % 3], 'graceful disconnect while the socket is momentarily not writable')
+    # ---- a send that fails in the MIDDLE of a frame during the flush of a graceful disconnect (length prefix written, body not):
+    # the connection is torn down; nothing may be written behind the incomplete frame
+    for i in range(ctx.scale(30, 300)):
+        n1 = rng.randint(2, 5)
+        progs = [[('q', k) for k in range(1, n1 + 1)] + [('d', 0)]]
+        if i % 2:
+            progs.append([('q', 10 + k) for k in range(rng.randint(1, 3))])
+        fb = rng.randrange(0, n1)
+
+        def choose(en, n):
+            users = [x for x in en if x != 0]
+            return rng.choice(users) if users and rng.random() < 0.9 else rng.choice(en)
+        r = scenario(C, E, progs, choose, 'plain', fail_user_body=fb)
+        ctx.case(('flush-fails-mid-frame', prog_str(progs), fb, tuple(r['ran'])), sample={'programs': prog_str(progs), 'kind': 'flush-fails-mid-frame'})
+        log = r['log']
+        at = next((j for j, e in enumerate(log) if e[1] == 'sndfail'), None)
+        ctx.count('flush_fails_mid_frame_walks' + ('.hit' if at is not None else ''))
+        bad = None
+        if at is not None:
+            later = [e for e in log[at + 1:] if e[1] == 'snd']
+            if later:
+                bad = 'after the body of packet %r could not be sent (its length prefix is on the wire), packets %r were still written' % (
+                    log[at][2], sorted({e[2] for e in later}))
+            elif not r['closed']:
+                bad = 'the socket is still open at rest'
+        if not bad and r['caller_errors']:
+            bad = 'an API call raised to its caller: %r' % (r['caller_errors'][:2],)
+        if not bad and r.get('stuck'):
+            bad = 'the threads do not come to rest (%s)' % r['stuck']
+        if bad:
+            ctx.violation('graceful disconnect whose flush fails in mid-frame (body send #%d of the flushing thread): %s' % (fb, bad),
+                          {'programs': prog_str(progs), 'schedule': r['ran'][:300]},
+                          key={'programs': prog_str(progs), 'schedule': r['ran'], 'kind': 'flush-fails-mid-frame'})
     # ---- compression switched on in mid-stream (the reactor has read Set Compression) while packets are
     # queued / being forced: every frame whose first send comes after the switch must be in the compressed
     # format, every earlier one in the plain format -- the peer parses strictly by that rule
